@@ -117,6 +117,12 @@ class C16(Prop):
                 runs += 1
                 back = outb + ".txt"
                 ft = ["-t", str(r.choice([1, 2, 8]))]
+                if (k + vi) % 3 == 0:
+                    # the output path already exists and is LONGER than what this run writes (a second conversion into the same
+                    # name): the result must be this run's records only
+                    with open(back, "w") as jf:
+                        jf.write("leftover\t1\t2\tfrom an earlier run\n" * 3000)
+                    rep.tag("output_file_existed_and_was_longer")
                 p2 = subprocess.run([repo_bin(from_tool), outb, back] + ft, capture_output=True, text=True, timeout=120)
                 runs += 1
                 got = self.parse_text(back, bed)
@@ -224,12 +230,15 @@ class C16(Prop):
         if not os.path.exists(path):
             return None
         out = []
-        for ln in open(path).read().splitlines():
+        for ln in open(path, errors="replace").read().splitlines():
             t = ln.split("\t")
-            if bed:
-                out.append((t[0], int(t[1]), int(t[2]), "\t".join(t[3:])))
-            else:
-                out.append((t[0], int(t[1]), int(t[2]), struct.unpack("f", struct.pack("f", float(t[3])))[0]))   # the single the text denotes
+            try:
+                if bed:
+                    out.append((t[0], int(t[1]), int(t[2]), "\t".join(t[3:])))
+                else:
+                    out.append((t[0], int(t[1]), int(t[2]), struct.unpack("f", struct.pack("f", float(t[3])))[0]))   # the single the text denotes
+            except (ValueError, IndexError, OverflowError):
+                out.append(("<line that is not a record>", ln[:80]))
         return out
 
 
